@@ -10,6 +10,9 @@
   * `shRun_length`, `shRun_clock`   one logged state per input, step counter and clock of the k-th                        (C16)
   * `shRun_rho_valid`    along a whole run WITH hops every density matrix is a valid state, pure if it started pure         (C02)
 
+  * `ehStep_spec`, `ehRun_spec`   Ehrenfest step/run: label constant, ρ valid along the run, logged potential = Re tr(ρ' H')  (C08, C02)
+  * `cumStep_common`, `cumStep_event`   cumulative-FSSH step: clock, ρ' = expStep ρ, events vs state                     (C09, C04)
+
   The tie to the code is the whole-run correspondence (`harness/runcommon.py`, op `shrun`): the real TrajectorySH is run,
   what it reads from outside at each step is recorded, and the model has to reproduce every snapshot and every event.
 -/
@@ -149,5 +152,69 @@ theorem shRun_rho_valid (m : Fin n → ℝ) (dt : ℝ) (e : Elec ℝ N n) (s : S
       refine ⟨this.1, fun hp => this.2 ?_⟩
       rw [hc.2.2.1]
       exact hv.2 hp
+
+/-! ### Ehrenfest and cumulative FSSH -/
+
+/-- Ehrenfest: the label never changes, the clock advances, ρ' = expStep ρ, the logged potential is `Re tr(ρ' H')` -/
+theorem ehStep_spec (m : Fin n → ℝ) (dt : ℝ) (eLast : Elec ℝ N n) (inp : StepIn ℝ N n) (s : SH ℝ N n) :
+    (ehStep m dt eLast inp s).1.state = s.state ∧
+    (ehStep m dt eLast inp s).1.time = s.time + dt ∧ (ehStep m dt eLast inp s).1.nsteps = s.nsteps + 1 ∧
+    (ehStep m dt eLast inp s).1.rho = expStep inp.diags inp.coeff dt s.rho ∧
+    (ehStep m dt eLast inp s).2 = ehrenfestPotential (fun a b => (expStep inp.diags inp.coeff dt s.rho).get a b)
+      (fun a b => inp.elec.H.get a b) := by
+  simp [ehStep]
+
+/-- along a whole Ehrenfest run the active-state label is the initial one and every density matrix is a valid state
+    (pure if it started pure), provided LAPACK's eigenvector matrices are unitary -/
+theorem ehRun_spec (m : Fin n → ℝ) (dt : ℝ) (e : Elec ℝ N n) (s : SH ℝ N n) (inps : List (StepIn ℝ N n))
+    (hC : ∀ inp ∈ inps, (toM inp.coeff)ᴴ * toM inp.coeff = 1) (h : C02.Valid (toM s.rho)) :
+    ∀ r ∈ ehRun m dt e s inps, r.1.state = s.state ∧ C02.Valid (toM r.1.rho) ∧
+      (toM s.rho * toM s.rho = toM s.rho → toM r.1.rho * toM r.1.rho = toM r.1.rho) := by
+  induction inps generalizing e s with
+  | nil => intro r hr; simp [ehRun] at hr
+  | cons inp rest ih =>
+    intro r hr
+    have hc := ehStep_spec m dt e inp s
+    have hv := C02.expStep_valid inp.diags inp.coeff s.rho dt (hC inp List.mem_cons_self) h
+    simp only [ehRun, List.mem_cons] at hr
+    rcases hr with hr | hr
+    · subst hr
+      refine ⟨hc.1, ?_, ?_⟩
+      · rw [hc.2.2.2.1]; exact hv.1
+      · rw [hc.2.2.2.1]; exact hv.2
+    · have h1 : C02.Valid (toM (ehStep m dt e inp s).1.rho) := by rw [hc.2.2.2.1]; exact hv.1
+      have := ih inp.elec (ehStep m dt e inp s).1 (fun i hi => hC i (List.mem_cons_of_mem _ hi)) h1 r hr
+      refine ⟨by rw [this.1, hc.1], this.2.1, fun hp => this.2.2 ?_⟩
+      rw [hc.2.2.2.1]
+      exact hv.2 hp
+
+/-- cumulative FSSH step: clock, ρ' = expStep ρ whatever the hopper decides, and the accumulator/threshold pair is exactly what
+    `cumHopper` returns for the step's rates -/
+theorem cumStep_common (m : Fin n → ℝ) (dt : ℝ) (eLast : Elec ℝ N n) (inp : StepIn ℝ N n) (ci : CumIn ℝ)
+    (sc : SH ℝ N n × CumState ℝ) :
+    (cumStep m dt eLast inp ci sc).1.1.time = sc.1.time + dt ∧
+    (cumStep m dt eLast inp ci sc).1.1.nsteps = sc.1.nsteps + 1 ∧
+    (cumStep m dt eLast inp ci sc).1.1.rho = expStep inp.diags inp.coeff dt sc.1.rho := by
+  simp only [cumStep]
+  split
+  · simp
+  · simp
+  · split
+    · split <;> simp
+    · simp
+
+/-- no event ⇒ state unchanged; frustrated ⇒ state unchanged; accepted ⇒ event names (old, new) -/
+theorem cumStep_event (m : Fin n → ℝ) (dt : ℝ) (eLast : Elec ℝ N n) (inp : StepIn ℝ N n) (ci : CumIn ℝ)
+    (sc : SH ℝ N n × CumState ℝ) :
+    ((cumStep m dt eLast inp ci sc).2 = none → (cumStep m dt eLast inp ci sc).1.1.state = sc.1.state) ∧
+    (∀ a b, (cumStep m dt eLast inp ci sc).2 = some (false, a, b) → a = sc.1.state.val ∧ (cumStep m dt eLast inp ci sc).1.1.state = sc.1.state) ∧
+    (∀ a b, (cumStep m dt eLast inp ci sc).2 = some (true, a, b) → a = sc.1.state.val ∧ (cumStep m dt eLast inp ci sc).1.1.state.val = b) := by
+  simp only [cumStep]
+  split
+  · simp
+  · simp
+  · split
+    · split <;> simp
+    · simp
 
 end Mud.StepThm
